@@ -7,6 +7,8 @@ import time
 import traceback
 
 from tcv import VERIF_DIR
+
+OUT_DIR = os.environ.get('TCV_OUT') or VERIF_DIR  # mutant runs write evidence/replays elsewhere
 from tcv.core import HarnessError, Result, digest, jdump
 
 LEVEL = 'model_checking'
@@ -42,8 +44,8 @@ def write_evidence(pid, tier, seed, res: Result, wall, n_viol):
         'wall_s': round(wall, 3),
         'violations': n_viol,
     }
-    os.makedirs(os.path.join(VERIF_DIR, 'evidence'), exist_ok=True)
-    path = os.path.join(VERIF_DIR, 'evidence', f'{pid}.json')
+    os.makedirs(os.path.join(OUT_DIR, 'evidence'), exist_ok=True)
+    path = os.path.join(OUT_DIR, 'evidence', f'{pid}.json')
     tmp = path + '.tmp'
     with open(tmp, 'w') as f:
         json.dump(ev, f, indent=1, sort_keys=True)
@@ -86,7 +88,7 @@ def cmd_check(args):
     seen = {}
     for v in unknown:
         seen.setdefault(v.signature, []).append(v)
-    rdir = os.path.join(VERIF_DIR, 'replays', pid)
+    rdir = os.path.join(OUT_DIR, 'replays', pid)
     for sig, vs in seen.items():
         v = vs[0]
         os.makedirs(rdir, exist_ok=True)
